@@ -1069,6 +1069,16 @@ func (e *Env) call(n *ast.CallExpr) tv {
 		}
 		r := fnApply(sig, ft, as)
 		return tv{r[0], sig.Results().At(0).Type()}
+	case "failed": // failed("callee"): ghost flag of a `propagates` clause
+		lit, ok := n.Args[0].(*ast.BasicLit)
+		if !ok {
+			evalFail("failed: argument must be a string literal")
+		}
+		name := strings.Trim(lit.Value, "\"")
+		if t, ok := e.st.ghostV[failedKey(name)].(*Term); ok {
+			return tv{t, nil}
+		}
+		return tv{False, nil}
 	case "oncedone": // oncedone(&once): the sync.Once at this address has run
 		return tv{Select(heapArr(e.h(), "G|oncedone", ArrayS(IntS, BoolS)), argT(0)), nil}
 	case "gw": // gw("name", key): witness array declared by a `range n ghost` clause
